@@ -85,7 +85,7 @@ RE = {
     # base64Binary lexical space (with optional single spaces between characters, XSD 1.1 3.3.16.2)
     "base64Binary": re.compile(
         r"(?:(?:[A-Za-z0-9+/] ?){4})*(?:(?:[A-Za-z0-9+/] ?){2}[AEIMQUYcgkosw048] ?=|(?:[A-Za-z0-9+/] ?)[AQgw] ?= ?=)?\Z"),
-    "NCName": re.compile(r"[^\W\d][\w.\-·]*\Z"),
+    "NCName": re.compile(r"[^\W\d][\w.\-·\u0300-\u036f\u203f\u2040]*\Z"),
 }
 
 
